@@ -455,6 +455,9 @@ func c20CreateStamp(c *Ctx, rule string) {
 		c.Bad(rule, "restoreUserSnapshot:create", c.P.Pos(fn.Pos()), "one SnapshotStore.Create call", fmt.Sprintf("%d", len(ss)))
 		return
 	}
+	idx := c.P.Arg(ss[0].Instr, 1)
+	c.Check(rule, "restoreUserSnapshot:create-index-above-the-log", c.P.InstrPos(ss[0].Instr), "the restored snapshot's index is computed from getLastIndex() and meta.Index (+1): above every entry the log holds, applied or not – cancelled in-flight entries stay in the log",
+		strings.Contains(idx, "recv.raftState.getLastIndex()") && strings.Contains(idx, "p1.Index") && strings.HasSuffix(idx, "+ 1)") && !strings.Contains(idx, "getLastApplied"), "Create(_, "+idx+", …)", 1)
 	term := c.P.Arg(ss[0].Instr, 2)
 	c.Check(rule, "restoreUserSnapshot:create-term", c.P.InstrPos(ss[0].Instr), "the restored snapshot is created under getCurrentTerm()", term == "recv.raftState.getCurrentTerm()", "Create(_, _, "+term+", …)", 1)
 	for _, callee := range []string{"(*raftState).setLastLog", "(*raftState).setLastSnapshot"} {
